@@ -103,9 +103,11 @@ def _detect_compressor(fileobj):
         # file which.
         first_bytes = fileobj.peek(max_prefix_len)
     else:
-        # Fallback to seek if the fileobject is not peekable.
+        # Fallback to seek if the fileobject is not peekable: go back to
+        # where the caller had positioned it.
+        position = fileobj.tell()
         first_bytes = fileobj.read(max_prefix_len)
-        fileobj.seek(0)
+        fileobj.seek(position)
 
     if first_bytes.startswith(_ZFILE_PREFIX):
         return "compat"
